@@ -33,14 +33,14 @@ FLAVOURS = {
 CHECKS = {
     "C08": dict(
         flavours=["ship", "assert"],
-        runs=dict(quick=2400, thorough=60000),
+        runs=dict(quick=2400, thorough=40000),
         per_process=dict(quick=25, thorough=50),
         fresh=False,
         timeout=dict(quick=120, thorough=3600),
     ),
     "C03": dict(
         flavours=["ship", "assert"],
-        runs=dict(quick=2400, thorough=60000),
+        runs=dict(quick=2400, thorough=40000),
         per_process=dict(quick=25, thorough=50),
         fresh=False,
         timeout=dict(quick=120, thorough=3600),
@@ -54,15 +54,15 @@ CHECKS = {
     ),
     "C09": dict(
         flavours=["ship", "assert", "asan"],
-        runs=dict(quick=3000, thorough=150000),
-        per_process=dict(quick=20, thorough=50),
+        runs=dict(quick=3000, thorough=600000),
+        per_process=dict(quick=20, thorough=200),
         fresh=False,   # the binary forks a pristine child per run itself
         timeout=dict(quick=120, thorough=1200),
     ),
     "C10": dict(
         flavours=["tsan", "ship", "asan"],
-        runs=dict(quick=3000, thorough=150000),
-        per_process=dict(quick=20, thorough=50),
+        runs=dict(quick=3000, thorough=600000),
+        per_process=dict(quick=20, thorough=200),
         fresh=False,
         timeout=dict(quick=120, thorough=1200),
     ),
